@@ -55,8 +55,58 @@ func cmdC06Dump(file string, opt bool) {
 // ---- skeletons --------------------------------------------------------------
 
 type skCase struct {
-	gs   []int // guards: condition numbers (tagless) or literals (tagged)
+	gs   []int      // guards: condition numbers (tagless) or literals (tagged)
+	fs   []condForm // tagless: the surface form of each guard (nil: atomic c(k))
 	body []*sk
+}
+
+// condForm is the surface form a condition slot c(k) is rendered in (a harness-level refinement: the
+// skeleton language of GoSpec/GoCtl.v keeps atomic oracle calls; the expected trace of a compound form
+// is computed by the Go rendering of the evaluator with Go's short-circuit order).
+//
+//	0 c(k)   1 !c(k)   2 !!c(k)   3 c(k) && c(k2)   4 c(k) || c(k2)   5 c(k) && !c(k2)
+//	6 c(k) || !c(k2)   7 !(c(k) && c(k2))   8 c(k) == false
+type condForm struct{ form, k2 int }
+
+const nCondForms = 9
+
+func (cf condForm) two() bool { return cf.form >= 3 && cf.form <= 7 }
+
+func condSrc(k int, cf condForm) string {
+	a, b := fmt.Sprintf("c(%d)", k), fmt.Sprintf("c(%d)", cf.k2)
+	switch cf.form {
+	case 1:
+		return "!" + a
+	case 2:
+		return "!!" + a
+	case 3:
+		return a + " && " + b
+	case 4:
+		return a + " || " + b
+	case 5:
+		return a + " && !" + b
+	case 6:
+		return a + " || !" + b
+	case 7:
+		return "!(" + a + " && " + b + ")"
+	case 8:
+		return a + " == false"
+	}
+	return a
+}
+
+// tag expression forms of a tagged switch: 0 tg(k)  1 -(-tg(k))  2 tg(k) + 0  3 tg(k) & 15
+func tagSrc(k, form int) string {
+	a := fmt.Sprintf("tg(%d)", k)
+	switch form {
+	case 1:
+		return "-(-" + a + ")"
+	case 2:
+		return a + " + 0"
+	case 3:
+		return a + " & 15"
+	}
+	return a
 }
 
 type sk struct {
@@ -72,11 +122,14 @@ type sk struct {
 	semis      bool // render the three-clause header even when init and post are absent
 	body       []*sk
 	// switch
-	tag    int // -1 tagless, else the tg argument
-	cases  []skCase
-	hasDef bool
-	dpos   int
-	dflt   []*sk
+	tag     int // -1 tagless, else the tg argument
+	tagForm int
+	noTag   bool     // keep this switch tagless when the attributes are drawn
+	cf      condForm // surface form of the if / for condition
+	cases   []skCase
+	hasDef  bool
+	dpos    int
+	dflt    []*sk
 }
 
 func leaf(kind string) *sk { return &sk{kind: kind, init: -1, cond: -1, post: -1, tag: -1} }
@@ -248,8 +301,25 @@ func skWf(b []*sk, inLoop, inSwitch bool) bool {
 type finisher struct {
 	r     *rng
 	mode  int
+	forms bool // draw compound / negated surface forms for the conditions
 	label int
 	kinds map[string]int
+}
+
+// form keeps a preset surface form, else (forms on) draws one; a second condition number is allotted
+// after the first.
+func (f *finisher) form(pre condForm) condForm {
+	cf := condForm{form: pre.form}
+	if cf.form == 0 && f.forms && f.r.chance(55) {
+		cf.form = 1 + f.r.intn(nCondForms-1)
+	}
+	if cf.two() {
+		cf.k2 = f.next()
+	}
+	if cf.form != 0 {
+		f.kinds["cond-form "+condSrc(0, condForm{cf.form, 1})]++
+	}
+	return cf
 }
 
 func (f *finisher) next() int { f.label++; return f.label }
@@ -282,6 +352,7 @@ func (f *finisher) stmt(s *sk) *sk {
 			f.kinds["if-init"]++
 		}
 		x.l = f.next()
+		x.cf = f.form(s.cf)
 		x.thn = f.block(s.thn, false)
 		x.els = f.block(s.els, false)
 		x.elseIf = f.r.chance(70)
@@ -297,12 +368,16 @@ func (f *finisher) stmt(s *sk) *sk {
 		}
 	case "for":
 		form := f.r.intn(5) // 0: short header, 1: ;;, 2: init, 3: post, 4: init and post
+		if s.semis {
+			form = 4 // preset: the full three-clause header
+		}
 		x.semis = form > 0
 		if form == 2 || form == 4 {
 			x.init = f.next()
 		}
 		if s.cond >= 0 {
 			x.cond = f.next()
+			x.cf = f.form(s.cf)
 		}
 		if form == 3 || form == 4 {
 			x.post = f.next()
@@ -313,9 +388,12 @@ func (f *finisher) stmt(s *sk) *sk {
 		x.l = f.next()
 		x.body = f.block(s.body, false)
 	case "switch":
-		tagged := f.r.chance(40)
+		tagged := !s.noTag && f.r.chance(40)
 		if tagged {
 			x.tag = f.next()
+			if f.forms && f.r.chance(50) {
+				x.tagForm = f.r.intn(4)
+			}
 			f.kinds["switch-tagged"]++
 		} else {
 			f.kinds["switch-tagless"]++
@@ -324,20 +402,28 @@ func (f *finisher) stmt(s *sk) *sk {
 		x.cases = nil
 		for _, c := range s.cases {
 			ng := 1
-			if f.r.chance(35) {
+			if c.fs != nil {
+				ng = len(c.fs) // preset guard forms: keep their number
+			} else if f.r.chance(35) {
 				ng = 2 + f.r.intn(2)
 				f.kinds["case-multi"]++
 			}
 			var gs []int
+			var fs []condForm
 			for i := 0; i < ng; i++ {
 				if tagged {
 					gs = append(gs, lit)
 					lit++
 				} else {
 					gs = append(gs, f.next())
+					pre := condForm{}
+					if c.fs != nil {
+						pre = c.fs[i]
+					}
+					fs = append(fs, f.form(pre))
 				}
 			}
-			x.cases = append(x.cases, skCase{gs: gs, body: f.block(c.body, false)})
+			x.cases = append(x.cases, skCase{gs: gs, fs: fs, body: f.block(c.body, false)})
 		}
 		if s.hasDef {
 			x.dflt = f.block(s.dflt, false)
@@ -366,9 +452,9 @@ func (s *sk) src(sb *strings.Builder, ind int) {
 		cur := s
 		for {
 			if cur.init >= 0 {
-				fmt.Fprintf(sb, "if emit(%d); c(%d) {\n", cur.init, cur.l)
+				fmt.Fprintf(sb, "if emit(%d); %s {\n", cur.init, condSrc(cur.l, cur.cf))
 			} else {
-				fmt.Fprintf(sb, "if c(%d) {\n", cur.l)
+				fmt.Fprintf(sb, "if %s {\n", condSrc(cur.l, cur.cf))
 			}
 			for _, x := range cur.thn {
 				x.src(sb, ind+1)
@@ -396,7 +482,7 @@ func (s *sk) src(sb *strings.Builder, ind int) {
 		}
 		c := ""
 		if s.cond >= 0 {
-			c = fmt.Sprintf("c(%d)", s.cond)
+			c = condSrc(s.cond, s.cf)
 		}
 		switch {
 		case s.semis || s.init >= 0 || s.post >= 0:
@@ -414,7 +500,7 @@ func (s *sk) src(sb *strings.Builder, ind int) {
 		fmt.Fprintf(sb, "%s}\n", t)
 	case "switch":
 		if s.tag >= 0 {
-			fmt.Fprintf(sb, "%sswitch tg(%d) {\n", t, s.tag)
+			fmt.Fprintf(sb, "%sswitch %s {\n", t, tagSrc(s.tag, s.tagForm))
 		} else {
 			fmt.Fprintf(sb, "%sswitch {\n", t)
 		}
@@ -427,9 +513,11 @@ func (s *sk) src(sb *strings.Builder, ind int) {
 				def()
 			}
 			var gs []string
-			for _, g := range c.gs {
+			for gi, g := range c.gs {
 				if s.tag >= 0 {
 					gs = append(gs, strconv.Itoa(g))
+				} else if c.fs != nil {
+					gs = append(gs, condSrc(g, c.fs[gi]))
 				} else {
 					gs = append(gs, fmt.Sprintf("c(%d)", g))
 				}
@@ -529,6 +617,49 @@ func (r *skRun) c(k int) (bool, bool) {
 	return b, ok
 }
 
+// cond evaluates a condition slot in its surface form with Go's short-circuit order.
+func (r *skRun) cond(k int, cf condForm) (bool, bool) {
+	a, ok := r.c(k)
+	if !ok {
+		return false, false
+	}
+	switch cf.form {
+	case 1, 8:
+		return !a, true
+	case 2:
+		return a, true
+	case 3, 5, 7:
+		v := a
+		if a {
+			b, ok := r.c(cf.k2)
+			if !ok {
+				return false, false
+			}
+			if cf.form == 5 {
+				b = !b
+			}
+			v = b
+		}
+		if cf.form == 7 {
+			v = !v
+		}
+		return v, true
+	case 4, 6:
+		if a {
+			return true, true
+		}
+		b, ok := r.c(cf.k2)
+		if !ok {
+			return false, false
+		}
+		if cf.form == 6 {
+			b = !b
+		}
+		return b, true
+	}
+	return a, true
+}
+
 func (r *skRun) block(b []*sk) int {
 	for _, s := range b {
 		if o := r.stmt(s); o != oNormal {
@@ -558,7 +689,7 @@ func (r *skRun) stmt(s *sk) int {
 		if s.init >= 0 && !r.emit(s.init) {
 			return oFuel
 		}
-		b, ok := r.c(s.l)
+		b, ok := r.cond(s.l, s.cf)
 		if !ok {
 			return oFuel
 		}
@@ -576,7 +707,7 @@ func (r *skRun) stmt(s *sk) int {
 				return oFuel
 			}
 			if s.cond >= 0 {
-				b, ok := r.c(s.cond)
+				b, ok := r.cond(s.cond, s.cf)
 				if !ok {
 					return oFuel
 				}
@@ -622,12 +753,16 @@ func (r *skRun) stmt(s *sk) int {
 		o := -1
 	cases:
 		for _, c := range s.cases {
-			for _, gd := range c.gs {
+			for gi, gd := range c.gs {
 				m := false
 				if s.tag >= 0 {
 					m = tv == gd
 				} else {
-					b, ok := r.c(gd)
+					cf := condForm{}
+					if c.fs != nil {
+						cf = c.fs[gi]
+					}
+					b, ok := r.cond(gd, cf)
 					if !ok {
 						return oFuel
 					}
@@ -672,10 +807,16 @@ func (sh *skShape) scan(b []*sk) {
 		switch s.kind {
 		case "if":
 			sh.conds++
+			if s.cf.two() {
+				sh.conds++
+			}
 		case "for":
 			sh.loop = true
 			if s.cond >= 0 {
 				sh.conds++
+				if s.cf.two() {
+					sh.conds++
+				}
 			}
 		case "range":
 			sh.loop = true
@@ -691,6 +832,11 @@ func (sh *skShape) scan(b []*sk) {
 			} else {
 				for _, c := range s.cases {
 					sh.conds += len(c.gs)
+					for _, cf := range c.fs {
+						if cf.two() {
+							sh.conds++
+						}
+					}
 				}
 			}
 		}
@@ -886,6 +1032,14 @@ func c06Program(fs []skFunc, calls []skCall) string {
 	return sb.String()
 }
 
+func singleFunc(f skFunc) string {
+	var sb strings.Builder
+	for _, s := range f.body {
+		s.src(&sb, 0)
+	}
+	return sb.String()
+}
+
 func singleProgram(f skFunc, o orc) string {
 	return c06Program([]skFunc{f}, []skCall{{0, o}})
 }
@@ -1047,6 +1201,89 @@ func skExitTails() [][]*sk {
 	return res
 }
 
+// skNegFamily: tagless switches with NEGATED / compound case conditions after an earlier case that is
+// taken (with and without an executed break), ending a range body, a three-clause for body (post
+// statement), a `for { ...; break }` body or standing at top level, always followed by statements; and
+// every condition form in an if with and without else.  Surface forms are preset (see condForm).
+func skNegFamily() [][]*sk {
+	var res [][]*sk
+	e := func() *sk { return leaf("emit") }
+	negForms := []condForm{{form: 1}, {form: 8}, {form: 5}, {form: 7}, {form: 2}, {form: 6}}
+	for first := 0; first < 3; first++ {
+		for later := 1; later <= 2; later++ {
+			for _, nf := range negForms {
+				for def := 0; def < 3; def++ {
+					for ctx := 0; ctx < 4; ctx++ {
+						var fb []*sk
+						switch first {
+						case 0:
+							fb = []*sk{e()}
+						case 1:
+							fb = []*sk{e(), leaf("break")}
+						case 2: // if c { break }; emit
+							i := leaf("if")
+							i.thn = []*sk{leaf("break")}
+							fb = []*sk{i, e()}
+						}
+						w := leaf("switch")
+						w.noTag = true
+						w.cases = []skCase{{gs: []int{0}, fs: []condForm{{}}, body: fb}}
+						for k := 0; k < later; k++ {
+							w.cases = append(w.cases, skCase{gs: []int{0}, fs: []condForm{nf}, body: []*sk{e()}})
+						}
+						switch def {
+						case 1:
+							w.hasDef, w.dpos, w.dflt = true, len(w.cases), []*sk{e()}
+						case 2:
+							w.hasDef, w.dpos, w.dflt = true, 0, []*sk{e()}
+						}
+						var b []*sk
+						switch ctx {
+						case 0: // switch; emit
+							b = []*sk{w, e()}
+						case 1: // for range rs { emit; switch }; emit
+							l := leaf("range")
+							l.body = []*sk{e(), w}
+							b = []*sk{l, e()}
+						case 2: // for emit; c; emit { emit; switch }; emit
+							l := leaf("for")
+							l.cond, l.semis = 0, true
+							l.body = []*sk{e(), w}
+							b = []*sk{l, e()}
+						case 3: // for { switch; emit; break }; emit
+							l := leaf("for")
+							l.body = []*sk{w, e(), leaf("break")}
+							b = []*sk{l, e()}
+						}
+						res = append(res, b)
+					}
+				}
+			}
+		}
+	}
+	for form := 0; form < nCondForms; form++ {
+		for els := 0; els < 2; els++ {
+			i := leaf("if")
+			i.cf = condForm{form: form}
+			i.thn = []*sk{e()}
+			if els == 1 {
+				i.els = []*sk{e()}
+			}
+			res = append(res, []*sk{i, e()})
+			l := leaf("for") // for <form> { emit; if c { break } }
+			l.cond = 0
+			l.cf = condForm{form: form}
+			x := leaf("if")
+			x.thn = []*sk{leaf("break")}
+			l.body = []*sk{e(), x}
+			if els == 1 {
+				res = append(res, []*sk{l, e()})
+			}
+		}
+	}
+	return res
+}
+
 // skSample draws a random block: depth-bounded, every construct, placeholders wherever legal.
 func skSample(r *rng, depth int, inLoop, inSwitch bool, maxLen int) []*sk {
 	n := r.intn(maxLen + 1)
@@ -1134,7 +1371,7 @@ func skSample(r *rng, depth int, inLoop, inSwitch bool, maxLen int) []*sk {
 // nodes, the exit-tail family, then `sampled` random ones.  Decoration modes: 0 bare, 1 an emit before
 // every statement and at the end of every block, 3 an emit before every statement only (blocks keep
 // their last statement), 2 random.
-func c06Funcs(r *rng, exh, sampled int, modes []int, st *stats, kinds map[string]int) []skFunc {
+func c06Funcs(r *rng, exh, sampled int, modes []int, forms bool, st *stats, kinds map[string]int) []skFunc {
 	var fs []skFunc
 	for n := 0; n <= exh; n++ {
 		cnt := 0
@@ -1144,7 +1381,7 @@ func c06Funcs(r *rng, exh, sampled int, modes []int, st *stats, kinds map[string
 			}
 			cnt++
 			for _, mode := range modes {
-				f := &finisher{r: r, mode: mode, kinds: kinds}
+				f := &finisher{r: r, mode: mode, forms: forms, kinds: kinds}
 				fs = append(fs, skFunc{body: f.block(b, true), desc: fmt.Sprintf("exhaustive nodes=%d", n)})
 			}
 		}
@@ -1154,16 +1391,24 @@ func c06Funcs(r *rng, exh, sampled int, modes []int, st *stats, kinds map[string
 		tails := skExitTails()
 		for _, b := range tails {
 			for _, mode := range []int{0, 3} {
-				f := &finisher{r: r, mode: mode, kinds: kinds}
+				f := &finisher{r: r, mode: mode, forms: forms, kinds: kinds}
 				fs = append(fs, skFunc{body: f.block(b, true), desc: "exit-tail family"})
 			}
 		}
 		st.Histogram["exit-tail family skeletons (conditional exit at the end of a then/case block)"] = len(tails)
+		if forms {
+			negs := skNegFamily()
+			for _, b := range negs {
+				f := &finisher{r: r, mode: 0, forms: false, kinds: kinds}
+				fs = append(fs, skFunc{body: f.block(b, true), desc: "negated-condition family"})
+			}
+			st.Histogram["negated-condition family skeletons (negated / compound case conditions after a taken case, ending loop bodies; every condition form in if and for)"] = len(negs)
+		}
 	}
 	for i := 0; i < sampled; i++ {
 		depth := 2 + i%4
 		b := skSample(r, depth, false, false, 2+i%3)
-		f := &finisher{r: r, mode: 2, kinds: kinds}
+		f := &finisher{r: r, mode: 2, forms: forms, kinds: kinds}
 		fs = append(fs, skFunc{body: f.block(b, true), desc: fmt.Sprintf("sampled depth=%d", depth)})
 	}
 	return fs
@@ -1581,7 +1826,7 @@ func behaviour(st *stats, sess *vmSess, fname string, f skFunc, vecs []orc, kind
 		})
 		bad := err != nil || !sameLines(obs, pred)
 		if bad {
-			st.mismatchG(kind, newMismatch(kind, opt, f, o, pred, obs, err))
+			st.mismatchG(kind+" / "+f.desc, newMismatch(kind, opt, f, o, pred, obs, err)) // one example per generator family
 		}
 		res = append(res, vmObs{o, obs, pred, bad})
 	}
@@ -1598,7 +1843,7 @@ func cmdC06Corr(seed uint64, n int, dir string, thorough bool) {
 	if thorough {
 		exh, limit = 3, 32
 	}
-	fs := c06Funcs(r, exh, n, []int{0, 1, 3}, st, kinds)
+	fs := c06Funcs(r, exh, n, []int{0, 1, 3}, false, st, kinds)
 	var cases []string
 	flush := func() {
 		for k, v := range kinds {
@@ -1680,7 +1925,7 @@ func cmdC06Spec(seed uint64, n int, dir string, thorough bool) {
 	if thorough {
 		exh = 2
 	}
-	fs := c06Funcs(r, exh, n, []int{3}, st, kinds)
+	fs := c06Funcs(r, exh, n, []int{3}, false, st, kinds)
 	var cases []string
 	for _, chunk := range c06Chunks(fs, 300) {
 		var calls []skCall
@@ -1731,7 +1976,7 @@ func cmdC06Script(seed uint64, n int, dir string, thorough bool) {
 	if thorough {
 		exh, per, limit = 3, 400, 32
 	}
-	fs := c06Funcs(r, exh, n*per, []int{1, 3}, st, kinds)
+	fs := c06Funcs(r, exh, n*per, []int{1, 3}, true, st, kinds)
 	flush := func() { st.write(dir + "/C06_script_stats.json") }
 	c06StartWatch()
 	kind := "control-flow"
@@ -1747,7 +1992,7 @@ func cmdC06Script(seed uint64, n int, dir string, thorough bool) {
 			runs := behaviour(st, sess, fmt.Sprintf("main.t%d", i), f, skVectors(r, f.body, 4, limit), kind, "on (default Load path)", flush)
 			st.Histogram["VM runs (optimizer on) compared with Go's semantics"] += len(runs)
 			if len(runs) > 0 {
-				st.add("script: "+f.desc, skKey("script", f))
+				st.add("script: "+f.desc, "script "+f.desc+": "+strings.Join(strings.Fields(singleFunc(f)), " "))
 			} else {
 				st.Histogram["skipped (no terminating answer vector)"]++
 			}
